@@ -17,8 +17,10 @@ func plainLex() *xmltree.Lex {
 	return &xmltree.Lex{Prefixes: map[string][]string{nsD: {"D"}, nsC: {"C"}, nsR: {"CR"}}}
 }
 
-func el(space, local string, ch ...*xmltree.Node) *xmltree.Node { return xmltree.El(space, local, ch...) }
-func txt(s string) *xmltree.Node                                 { return xmltree.Txt(s) }
+func el(space, local string, ch ...*xmltree.Node) *xmltree.Node {
+	return xmltree.El(space, local, ch...)
+}
+func txt(s string) *xmltree.Node { return xmltree.Txt(s) }
 
 // seedDoc is one valid request document.
 type seedDoc struct {
